@@ -647,21 +647,50 @@ class Verdict:
         return 1 if self.violations else 0
 
 
+def lines_at(path, wanted):
+    """One pass over a file -> {index: line} for the wanted line indices."""
+    out = {}
+    wanted = set(wanted)
+    if not wanted:
+        return out
+    with open(path) as f:
+        for i, line in enumerate(f):
+            if i in wanted:
+                out[i] = line.rstrip("\n")
+                if len(out) == len(wanted):
+                    break
+    return out
+
+
 def absorb_replay(verdict, outcome, engine, scenfile, crash_sig=None, extra=None):
     """Turns a ReplayOutcome into violations (failures, crashes, timeouts).  Harness errors
     make the run inconclusive."""
     if outcome.errors and not (outcome.failures or outcome.crashes or outcome.timeouts):
         raise Inconclusive("harness errors: %s" % outcome.errors[:3])
+    # the scenario text is fetched in ONE pass, and only for the first occurrences of every signature (a replay
+    # file is written for the first 25 violations of a run; thousands of failures need not be read back)
+    per_sig, need = {}, set()
     for idx, sig, detail in outcome.failures:
-        verdict.violation(sig, dict(engine=engine, scenario=json.loads(read_line(scenfile, idx)), detail=detail,
-                                    **(extra or {})))
+        c = per_sig.get(sig, 0)
+        per_sig[sig] = c + 1
+        if c < 30:
+            need.add(idx)
+    need.update(idx for idx, _ in outcome.crashes[:60])
+    need.update(outcome.timeouts[:60])
+    lines = lines_at(scenfile, need)
+
+    def scenario(idx):
+        ln = lines.get(idx)
+        return json.loads(ln) if ln else {"index": idx, "note": "scenario text not read back (many failures of this kind)"}
+    for idx, sig, detail in outcome.failures:
+        verdict.violation(sig, dict(engine=engine, scenario=scenario(idx), detail=detail, **(extra or {})))
     for idx, text in outcome.crashes:
-        sc = json.loads(read_line(scenfile, idx))
+        sc = scenario(idx)
         sig = crash_sig(sc, text) if crash_sig else "%s/crash" % engine
         verdict.violation(sig, dict(engine=engine, scenario=sc, detail={"crashed": True, "stderr": text[-1500:]},
                                     **(extra or {})))
     for idx in outcome.timeouts:
-        sc = json.loads(read_line(scenfile, idx))
+        sc = scenario(idx)
         verdict.violation("%s/timeout" % engine, dict(engine=engine, scenario=sc, detail={"timeout": True},
                                                        **(extra or {})))
     if outcome.errors:
